@@ -59,7 +59,7 @@ def run(ctx):
         import idkeep
         ctx.rule('IDENT', 'wrapped vertices keep the UUID and data of the input vertex they replace')
         idkeep.check(ctx, cfg, prog, mod, 'IDENT',
-                     lambda o: o.rsplit('::', 1)[-1] in ('canonicalize_vertices', 'build_periodic', 'canonicalize_vertex_for_insertion'), 3)
+                     lambda o: o.rsplit('::', 1)[-1] in ('canonicalize_vertices', 'build_periodic', 'canonicalize_vertex_for_insertion'), 2)
     return ctx.finish(EXPLANATION)
 
 
